@@ -366,8 +366,9 @@ spec:
 	}
 	// the shape of the app layer, chosen up front
 	roll := g.Intn(100)
-	wantDeletes := roll < 12
-	wantOverlap := allowOverlap && roll >= 12 && roll < 30
+	wantDeletes := roll < 10
+	wantMetaMaps := roll >= 10 && roll < 16
+	wantOverlap := allowOverlap && roll >= 16 && roll < 30
 	wantJSONMeta := roll >= 30 && roll < 70
 	wantMulti := roll >= 50 && roll < 70
 	baseGens := wantJSONMeta || g.Chance(50)
@@ -460,6 +461,21 @@ spec:
 		delete(t.Files, "app/p3.yaml")
 		delete(t.Files, "app/json.yaml")
 		delete(t.Files, "app/smp.yaml")
+		if g.Chance(40) {
+			t.NamePrefix = "app-"
+		}
+		return t
+	}
+	if wantMetaMaps {
+		// finding PIPE/patch-spelling: a strategic-merge patch whose metadata.labels hold a null (delete) and a
+		// number. patchesStrategicMerge (and targeted patches) rewrite the patch's labels/annotations through
+		// map[string]string ("null", "1"), the target-less `patches:` entry that `edit fix` writes applies them
+		// as written: the spellings build differently (known finding, the guard of C19_fix_preserves_build_partial)
+		t.Mode = "smp-metadata-maps"
+		t.Files["base/deployment.yaml"] = strings.Replace(t.Files["base/deployment.yaml"], "  labels:\n    dl: x\n", "  labels:\n    dl: x\n    keep: me\n", 1)
+		t.Files["app/smp.yaml"] = "apiVersion: apps/v1\nkind: Deployment\nmetadata:\n  name: web\n  labels:\n    keep: null\n    n: 1\n"
+		t.SMPatches = []string{"smp.yaml"}
+		t.CommonLabels, t.Labels = nil, nil
 		if g.Chance(40) {
 			t.NamePrefix = "app-"
 		}
@@ -697,6 +713,11 @@ func c19SpellingLaws(r *Run, t *c19Tree, subsets []map[string]bool) {
 			continue
 		}
 		if out != ref {
+			if t.Mode == "smp-metadata-maps" && name == "patchesStrategicMerge" {
+				r.Violation(OracleViolation{Law: "spelling_equivalence", Class: "patch-spelling-metadata-maps-restringified",
+					Detail: fmt.Sprintf("with patchesStrategicMerge:\n%s\nwith target-less patches:\n%s", out, ref), Replay: map[string]interface{}{"tree": t, "subset": name}})
+				continue
+			}
 			r.Violation(OracleViolation{Law: "spelling_equivalence", Class: "deprecated-spelling-changes-build:" + name,
 				Detail: fmt.Sprintf("with %s deprecated:\n%s\nall current:\n%s", name, out, ref), Replay: map[string]interface{}{"tree": t, "subset": name}})
 		}
@@ -790,7 +811,11 @@ func c19FixBuildLaw(r *Run, t *c19Tree) {
 		return
 	}
 	if after != before {
-		r.Violation(OracleViolation{Law: "fix_preserves_build", Class: "fix-changes-build", Detail: fmt.Sprintf("fixed file:\n%s\nbefore:\n%s\nafter:\n%s", fixed, before, after), Replay: rp})
+		class := "fix-changes-build"
+		if t.Mode == "smp-metadata-maps" {
+			class = "patch-spelling-metadata-maps-restringified"
+		}
+		r.Violation(OracleViolation{Law: "fix_preserves_build", Class: class, Detail: fmt.Sprintf("fixed file:\n%s\nbefore:\n%s\nafter:\n%s", fixed, before, after), Replay: rp})
 	}
 }
 
